@@ -43,6 +43,21 @@ func c01Check(c C01Case, rec *evid.Rec) error {
 	if !val.Equal(got, c.V, val.Ordered) {
 		return fmt.Errorf("built %s with %s but it reads back as %s", c.V.Short(300), impl, got.Short(300))
 	}
+	// the bindnode containers once more with NON-nullable Any members ({String:Any}, [Any]: the member slot
+	// is a node, not a pointer to one), for values whose root has no null member
+	if impl == nodes.BindAnyC && (c.V.K == val.Map || c.V.K == val.List) {
+		nn, err := nodes.Build(c.V, nodes.NewProg(c.Prog), nodes.ProtoFor(nodes.BindAnyNN, c.V.K))
+		if err != nil {
+			return fmt.Errorf("a legal builder call sequence (%s) failed: %w", nodes.BindAnyNN, err)
+		}
+		gnn, err := nodes.Full.Read(nn)
+		if err != nil {
+			return fmt.Errorf("node built by %s is not self-consistent: %w", nodes.BindAnyNN, err)
+		}
+		if !val.Equal(gnn, c.V, val.Ordered) {
+			return fmt.Errorf("built %s with %s but it reads back as %s", c.V.Short(300), nodes.BindAnyNN, gnn.Short(300))
+		}
+	}
 	// reading is repeatable
 	got2, err := nodes.Plain.Read(n)
 	if err != nil || !val.Equal(got2, c.V, val.Ordered) {
